@@ -59,8 +59,8 @@ NODE_REL = 5.1e-7
 
 def budget(tier):
     if tier == "quick":
-        return dict(max_examples=48, shards=8, wall_s=80, shrink_s=40)
-    return dict(max_examples=640, shards=16, wall_s=800, shrink_s=200)
+        return dict(max_examples=160, shards=8, wall_s=80, shrink_s=40)
+    return dict(max_examples=2400, shards=16, wall_s=800, shrink_s=200)
 
 
 # --------------------------------------------------------------------------- generator
@@ -84,14 +84,14 @@ def strategy(tier):
         for nf in nfs:
             mus = []
             for i in range(draw(st.integers(1, 3))):
-                if blocks and i == 0 and draw(st.integers(0, 3)) == 0:
+                if blocks and i == 0 and draw(st.sampled_from([False, False, False, True])):
                     pass  # shared boundary scale with the previous block
                 else:
                     mu *= draw(st.floats(1.15, 3.0))
                 mu = float(round(mu, 1 if round_scales else 7))
                 mus.append(mu)
             blocks.append([nf, mus])
-        bad_scales = nblocks >= 2 and draw(st.integers(0, 15)) == 0
+        bad_scales = nblocks >= 2 and draw(st.sampled_from([False] * 15 + [True]))
         if bad_scales:
             blocks[0][1], blocks[1][1] = blocks[1][1], blocks[0][1]
             if blocks[0][1][-1] <= blocks[1][1][0]:  # only a shared single scale was swapped: force an overlap
@@ -108,9 +108,9 @@ def strategy(tier):
         else:
             ratios = [1.0] * 3 if unit else [draw(st.floats(0.7, 2.0)) for _ in range(3)]
             msbar = None
-        sv = scheme == "POLE" and draw(st.integers(0, 7)) == 0
+        sv = scheme == "POLE" and draw(st.sampled_from([False] * 7 + [True]))
         target, ttype = None, "none"
-        if draw(st.integers(0, 2)) == 0:
+        if draw(st.sampled_from([False, False, True])):
             ttype = draw(st.sampled_from(["list", "list", "array", "xgrid"]))
             pts = []
             for _ in range(draw(st.integers(2, 6))):
@@ -148,7 +148,7 @@ def strategy(tier):
             target=target,
             ttype=ttype,
             info_update=draw(st.sampled_from([None, None, {"SetDesc": "harness set", "HarnessKey": 15.3}])),
-            install=draw(st.integers(0, 3)) == 0,
+            install=draw(st.sampled_from([False, False, False, True])),
         )
 
     @st.composite
@@ -262,7 +262,11 @@ def check_roundtrip(case):
         want_head = case["pdf_type"] or ("PdfType: central\n" if case["member"] == 0 else "PdfType: replica\n")
         if head != want_head:
             res.fail(f"{ID}/roundtrip/head", f"head {head!r} instead of {want_head!r}")
-        phead, pblocks = bs.parse_dat(target)
+        try:
+            phead, pblocks = bs.parse_dat(target)
+        except (ValueError, IndexError) as e:
+            res.fail(f"{ID}/roundtrip/malformed-file", repr(e))
+            return res
         if phead.get("Format") != "lhagrid1":
             res.fail(f"{ID}/roundtrip/format", f"header {phead}")
         for who, got in (("repo-reader", back), ("harness-parser", [
@@ -381,7 +385,11 @@ def check_case(case):
         rmat = None if target is None else bs.interp_matrix(xgrid, deg, target)
         written_q, written_pids = None, None
         for m, pdf in enumerate(pdfs):
-            head, blocks = bs.parse_dat(setdir / want_dats[m])
+            try:
+                head, blocks = bs.parse_dat(setdir / want_dats[m])
+            except (ValueError, IndexError) as e:
+                res.fail(f"{ID}/dat/malformed-file", f"member {m}: {e!r}")
+                return res
             if head.get("PdfType") != ("central" if m == 0 else "replica") or head.get("Format") != "lhagrid1":
                 res.fail(f"{ID}/dat/head", f"member {m}: header {head}")
             if len(blocks) != len(layout):
@@ -444,7 +452,11 @@ def check_case(case):
                         res.fail(f"{ID}/reread/blocks-differ", "load_blocks_from_file and the harness parser disagree")
 
         # ------------------------------------------------ info file
-        info = bs.parse_info(setdir / "outset.info")
+        try:
+            info = bs.parse_info(setdir / "outset.info")
+        except (ValueError, OSError) as e:
+            res.fail(f"{ID}/info/malformed-file", repr(e))
+            return res
         if info_back is not None:
             for key in ("XMin", "XMax", "QMin", "QMax", "NumMembers", "NumFlavors", "AlphaS_Qs", "AlphaS_Vals", "Flavors"):
                 if info_back.get(key) != info.get(key):
